@@ -450,22 +450,22 @@ def classify_degenerate(case):
 
 
 SUBCHECKS = [
-    SubCheck('plain', plain_case(), check_plain, classify_plain, quick=600,
+    SubCheck('plain', plain_case(), check_plain, classify_plain, quick=600, thorough=8000,
              doc='cosine / Pearson: (i,j) entries equal the definition; symmetry, self = 1, range, '
                  'condition-permutation invariance, array == RDMs input'),
-    SubCheck('rank', rank_case(), check_rank, classify_rank, quick=1200,
+    SubCheck('rank', rank_case(), check_rank, classify_rank, quick=1200, thorough=16000,
              doc='Spearman, Kendall tau-b, tau-a, rho-a with ties: brute-force concordance counts, '
                  'mid-ranks, enumerated tie-breakings; same laws'),
     Enumeration('rank_exhaustive3', enum_rank3, check_rank3, classify_rank3,
                 doc='all 729 ordered pairs of 3-entry RDM vectors over {0,1,2}: five rank measures '
                     'vs brute force, rho-a vs all tie-breakings'),
-    SubCheck('whitened', white_case(), check_white, classify_white, quick=1000,
+    SubCheck('whitened', white_case(), check_white, classify_white, quick=1000, thorough=10000,
              doc='cosine_cov / corr_cov with sigma_k None, variance vector, SPD matrix vs dense '
                  'element-wise V; vector == diagonal matrix; same laws'),
-    SubCheck('bures', bures_case(), check_bures, classify_bures, quick=600,
+    SubCheck('bures', bures_case(), check_bures, classify_bures, quick=600, thorough=8000,
              doc='Bures similarity / squared metric of embeddable RDMs vs nuclear-norm fidelity '
                  'from the points and from the kernels; same laws (similarity in [0,1], metric >= 0, self 1 / 0)'),
-    SubCheck('degenerate', degenerate_case(), check_degenerate, classify_degenerate, quick=400,
+    SubCheck('degenerate', degenerate_case(), check_degenerate, classify_degenerate, quick=400, thorough=5000,
              doc='stacks of 2-4 RDMs containing all-zero (cosine) / constant (centred, ranked) RDMs: '
                  'every entry between two regular RDMs still equals the definition'),
 ]
